@@ -73,6 +73,38 @@ CASES = [
     ("betterThan: ternaries as ifs", "TT", TT_H,
      "    int e1 = (getType() == TType::T_EXACT) ? 3 : 0;\n",
      "    int e1 = 0;\n    if (getType() == TType::T_EXACT)\n        e1 = 3;\n", "pass"),
+    # ---- Draw (search.hpp: canClaimDrawRep / canClaimDraw50) -----------------------------------------------------
+    ("canClaimDrawRep: i -= 1", "Draw", SEARCH_H, "for (int i = posHashListSize - 4; i >= stop; i -= 2) {", "for (int i = posHashListSize - 4; i >= stop; i -= 1) {", "break"),
+    ("canClaimDrawRep: starts at size - 2", "Draw", SEARCH_H, "for (int i = posHashListSize - 4; i >= stop; i -= 2) {", "for (int i = posHashListSize - 2; i >= stop; i -= 2) {", "break"),
+    ("canClaimDrawRep: i > stop", "Draw", SEARCH_H, "for (int i = posHashListSize - 4; i >= stop; i -= 2) {", "for (int i = posHashListSize - 4; i > stop; i -= 2) {", "break"),
+    ("canClaimDrawRep: reps >= 3", "Draw", SEARCH_H, "if ((i >= posHashFirstNew) || (reps >= 2))", "if ((i >= posHashFirstNew) || (reps >= 3))", "break"),
+    ("canClaimDrawRep: i > posHashFirstNew", "Draw", SEARCH_H, "if ((i >= posHashFirstNew) || (reps >= 2))", "if ((i > posHashFirstNew) || (reps >= 2))", "break"),
+    ("canClaimDrawRep: max(0, ..) dropped", "Draw", SEARCH_H, "int stop = std::max(0, posHashListSize - pos.getHalfMoveClock());", "int stop = posHashListSize - pos.getHalfMoveClock();", "break"),
+    ("canClaimDrawRep: halfmove clock + 1", "Draw", SEARCH_H, "int stop = std::max(0, posHashListSize - pos.getHalfMoveClock());", "int stop = std::max(0, posHashListSize - pos.getHalfMoveClock() - 1);", "break"),
+    ("canClaimDrawRep: && instead of ||", "Draw", SEARCH_H, "if ((i >= posHashFirstNew) || (reps >= 2))", "if ((i >= posHashFirstNew) && (reps >= 2))", "break"),
+    ("canClaimDraw50: > 100", "Draw", SEARCH_H, "return (pos.getHalfMoveClock() >= 100);", "return (pos.getHalfMoveClock() > 100);", "break"),
+    ("canClaimDrawRep: infinite loop (i -= 0)", "Draw", SEARCH_H, "for (int i = posHashListSize - 4; i >= stop; i -= 2) {", "for (int i = posHashListSize - 4; i >= stop; i -= 0) {", "break"),
+    ("canClaimDrawRep: while loop, reps += 1, operands swapped", "Draw", SEARCH_H,
+     "    for (int i = posHashListSize - 4; i >= stop; i -= 2) {\n        if (pos.zobristHash() == posHashList[i]) {\n            reps++;\n            if ((i >= posHashFirstNew) || (reps >= 2))\n                return true;\n        }\n    }",
+     "    int i = posHashListSize - 4;\n    while (stop <= i) {\n        if (posHashList[i] == pos.zobristHash()) {\n            reps += 1;\n            if ((reps >= 2) || (posHashFirstNew <= i))\n                return true;\n        }\n        i = i - 2;\n    }", "pass"),
+    ("canClaimDrawRep: locals and loop variable renamed", "Draw", SEARCH_H,
+     "    int reps = 0;\n    int stop = std::max(0, posHashListSize - pos.getHalfMoveClock());\n    for (int i = posHashListSize - 4; i >= stop; i -= 2) {\n        if (pos.zobristHash() == posHashList[i]) {\n            reps++;\n            if ((i >= posHashFirstNew) || (reps >= 2))",
+     "    int cnt = 0;\n    int first = std::max(0, posHashListSize - pos.getHalfMoveClock());\n    for (int k = posHashListSize - 4; k >= first; k -= 2) {\n        if (pos.zobristHash() == posHashList[k]) {\n            cnt++;\n            if ((k >= posHashFirstNew) || (cnt >= 2))", "pass"),
+    # KNOWN FALSE ALARM: hoisting a value into a new loop-invariant local changes the interface of the generated loop
+    # helper (its fixed parameters), so the statement of Bridge.Draw.loop_eq no longer type-checks
+    ("canClaimDrawRep: hash hoisted into a local (changes the loop helper's interface)", "Draw", SEARCH_H,
+     "    for (int i = posHashListSize - 4; i >= stop; i -= 2) {\n        if (pos.zobristHash() == posHashList[i]) {",
+     "    const U64 h = pos.zobristHash();\n    for (int i = posHashListSize - 4; i >= stop; i -= 2) {\n        if (h == posHashList[i]) {", "break"),
+    # ---- Score (constants.hpp, search.cpp notifyPV slice) ---------------------------------------------------------
+    ("notifyPV: (MATE0 - score + 1) / 2", "Score", SEARCH_C, "score = (MATE0 - score) / 2;", "score = (MATE0 - score + 1) / 2;", "break"),
+    ("notifyPV: lose conversion without - 1", "Score", SEARCH_C, "score = -((MATE0 + score - 1) / 2);", "score = -((MATE0 + score) / 2);", "break"),
+    ("notifyPV: isMate not set for lose scores", "Score", SEARCH_C, "    } else if (isLoseScore(score)) {\n        isMate = true;", "    } else if (isLoseScore(score)) {\n        isMate = false;", "break"),
+    ("notifyPV: sign dropped", "Score", SEARCH_C, "score = -((MATE0 + score - 1) / 2);", "score = ((MATE0 + score - 1) / 2);", "break"),
+    ("isLoseScore: <= ", "Score", CONST, "return score < -(MATE0 / 2); }", "return score <= -(MATE0 / 2); }", "break"),
+    ("notifyPV: slice marker moved (tNow declared before)", "Score", SEARCH_C, "    bool isMate = false;\n    if (isWinScore(score)) {", "    S64 tNow0 = 0; (void)tNow0;\n    bool isMate = false;\n    if (isWinScore(score)) {", "pass"),
+    ("notifyPV: two ifs instead of else-if, shift instead of /2", "Score", SEARCH_C,
+     "    if (isWinScore(score)) {\n        isMate = true;\n        score = (MATE0 - score) / 2;\n    } else if (isLoseScore(score)) {\n        isMate = true;\n        score = -((MATE0 + score - 1) / 2);\n    }",
+     "    const bool win = isWinScore(score), lose = isLoseScore(score);\n    isMate = win || lose;\n    if (win)\n        score = (MATE0 - score) / 2;\n    if (lose)\n        score = -((MATE0 - 1 + score) / 2);", "pass"),
 ]
 
 
